@@ -114,6 +114,29 @@ def schcOp (toks : List String) : Option String :=
       let c ← compressD p r d
       let dd ← decompressU c r (some ps) d
       pure (c, dd)))
+  | "mo" :: name :: rest => do
+    -- the matching-operator functions of matching/operators.py called directly
+    let (f, tv) ← runP (do let f ← pField; let tv ← (if name == "ig" then pure (TV.buf ⟨[], .left⟩) else pTV); pEnd; pure (f, tv)) rest
+    match name, tv with
+    | "eq", .buf t => pure (toString (f.value.beq t))
+    | "ig", _ => pure "true"
+    | "msb", .buf t => pure (toString (msbMatch f.value t))
+    | "mm", .map fwd => pure (toString (dictGet fwd f.value).isSome)
+    | _, _ => none
+  | "act" :: name :: rest => do
+    -- the compression-action functions of actions/compression.py called directly
+    match name with
+    | "ns" => do let _ ← runP (do let f ← pField; pEnd; pure f) rest; pure (showABuf (ABuf.empty .left))
+    | "vs" => do let f ← runP (do let f ← pField; pEnd; pure f) rest; pure (showABuf f.value)
+    | "ms" => do
+      let (f, tv) ← runP (do let f ← pField; let tv ← pTV; pEnd; pure (f, tv)) rest
+      match tv with
+      | .map fwd => pure (showPy showABuf (match dictGet fwd f.value with | some i => pure i | none => throw .keyError))
+      | _ => none
+    | "lsb" => do
+      let (f, n) ← runP (do let f ← pField; let n ← pNat; pEnd; pure (f, n)) rest
+      pure (showPy showABuf (leastSignificantBits f.value n))
+    | _ => none
   | "fcompress" :: rest => do
     let (cs, pk, ifc) ← runP (do let n ← pNat; let cs ← pRep n pContext; let pk ← pABuf; let ifc ← pId; pEnd; pure (cs, pk, ifc)) rest
     pure (showPy showABuf (frontCompress cs pk ifc))
